@@ -195,6 +195,12 @@ def arith(eng, opn, a, b, line):
             return SV(a.sort, -a.t)
         return SV(a.sort, -a.t)
     x, y = a.t, b.t
+    if opn in ("Mult", "Div") and not is_conc_num(x) and not is_conc_num(y):
+        # non-linear: an integer operand that the path condition pins to one value is replaced by it
+        if a.sort == INT:
+            x = pinned_int(eng, x)
+        if b.sort == INT:
+            y = pinned_int(eng, y)
     conc = is_conc_num(x) and is_conc_num(y)
     s = num_sort(a, b)
     if opn == "Add":
@@ -238,6 +244,23 @@ def arith(eng, opn, a, b, line):
             return r
         raise EngineLimit("power")
     raise EngineLimit("binary operator %s" % opn)
+
+
+def pinned_int(eng, t):
+    p = eng.path
+    if p is None:
+        return t
+    try:
+        if p.solver.check() != z3.sat:
+            return t
+        v = p.solver.model().eval(t, model_completion=True)
+        if not z3.is_int_value(v):
+            return t
+        if p.feasible_with(t != v):
+            return t
+        return v.as_long()
+    except z3.Z3Exception:
+        return t
 
 
 def _z(x, s):
